@@ -169,6 +169,7 @@ type CtxTimeline struct {
 type Mon struct {
 	stats    *Stats
 	c17      *c17Mon // set when the query differential is attached
+	c19      *c19Mon // set when the genesis scenario is attached
 	run      *Run
 	reqs     map[string]*ReqLedger
 	ctxs     map[string]*CtxTimeline
